@@ -293,6 +293,11 @@ MUTANTS: List[Dict] = [
     M("disp8-no-descend", "breaking", SCFG, "                q.extend(value.subregion.graph.items())\n", "", ["DISP-8"]),
     M("disp8-contains-unsorted", "breaking", SCFG, '                blocks[key]["contains"] = sorted(\n                    [idx.name for idx in value.subregion.graph.values()]\n                )\n', '                blocks[key]["contains"] = list(\n                    [idx.name for idx in value.subregion.graph.values()]\n                )\n', ["DISP-8"]),
     M("total8-inverted-narrowing", "breaking", SCFG, "                assert value.subregion is not None\n                assert value.parent_region is not None\n                q.extend(", "                assert value.subregion is None\n                assert value.parent_region is not None\n                q.extend(", ["TOTAL-8"]),
+    M("query1-raw-targets", "breaking", SCFG, "            block = self.graph[name]\n            for jt in block.jump_targets:\n                heads.discard(jt)\n", "            block = self.graph[name]\n            for jt in block._jump_targets:\n                heads.discard(jt)\n", ["QUERY-1", "STORE-12"]),
+    M("query2-drop-returns", "breaking", SCFG, "            # any returns\n            if self.graph[inside].is_exiting:\n                exiting.add(inside)\n", "", ["QUERY-2"]),
+    M("query2-swap-results", "breaking", SCFG, "        return sorted(exiting), sorted(exits)\n", "        return sorted(exits), sorted(exiting)\n", ["QUERY-2"]),
+    M("query3-seed-begin", "breaking", SCFG, "        to_vist = list(self.graph[begin].jump_targets)\n", "        to_vist = [begin]\n", ["QUERY-3"]),
+    M("query3-raw-expand", "breaking", SCFG, "                    to_vist.extend(self.graph[block].jump_targets)\n", "                    to_vist.extend(self.graph[block]._jump_targets)\n", ["QUERY-3", "STORE-12"]),
     # ------------------------------------------------ benign
     M("ok-rename-locals", "benign", TR, None, None, [], "rename locals of loop_restructure_helper (computed edit)"),
     M("ok-sorted-key", "benign", TR, "    for name in sorted(loop):\n", "    for name in sorted(loop, key=str):\n", []),
